@@ -151,13 +151,19 @@ class ExecB(mirsmt.Exec):
         return None
 
 
+def over_approximated(events):
+    """True if the path went through a havoc'd unknown callee or an abstracted loop: the encoding then
+    allows more behaviours than the real code, so a sat verdict is a candidate, not a counterexample."""
+    return any(e[0] in ("abstracted", "call") for e in events)
+
+
 def run_kernel(k, fns, wrapping, fields, budget):
     """-> dict with per-path results."""
     names = k.find(fns)
     out = {"kernel": k.kid, "property": k.prop, "what": k.what, "semantics": "wrapping (overflow-checks=off)" if wrapping else "checked (overflow-checks=on)",
-           "functions": names, "paths": 0, "queries": 0, "unsat": 0, "sat": [], "inconclusive": [], "solver_s": 0.0, "vacuity": None}
+           "functions": names, "paths": 0, "queries": 0, "unsat": 0, "sat": [], "inconclusive": [], "undecided": [], "solver_s": 0.0, "vacuity": None}
     if not names:
-        out["inconclusive"].append("kernel function not found in the MIR dump (renamed or removed?)")
+        out["undecided"].append("kernel function not found in the MIR dump (renamed or removed?)")
         return out
     for name in names:
         sym = mirsmt.Sym()
@@ -184,7 +190,7 @@ def run_kernel(k, fns, wrapping, fields, budget):
                 st.roots = {"self": args[0]}
             outcomes = ex.run(name, st, args)
         except Unsupported as e:
-            out["inconclusive"].append(f"{name}: outside the MIR subset: {e}")
+            out["undecided"].append(f"{name}: outside the MIR subset: {e}")
             continue
         # vacuity: the representation invariant alone must be satisfiable
         vs = mirsmt.smt_script(sym, ctx.assume)
@@ -200,7 +206,10 @@ def run_kernel(k, fns, wrapping, fields, budget):
                 n_ok, bad = 0, [{"error": str(e)[:200]}]
             out["validated_vectors"] = n_ok
             if bad:
-                out["inconclusive"].append(f"{name}: translation validation mismatch on concrete inputs: {bad[:2]}")
+                if any(over_approximated(o.state.events) for o in outcomes):
+                    out["undecided"].append(f"{name}: calls a function outside the model list (havoc): the encoding is an over-approximation on this tree ({bad[:1]})")
+                else:
+                    out["inconclusive"].append(f"{name}: translation validation mismatch on concrete inputs: {bad[:2]}")
         jobs = []
         for o in outcomes:
             out["paths"] += 1
@@ -242,7 +251,7 @@ def run_kernel(k, fns, wrapping, fields, budget):
                     rs, outm = mirsmt.solve(sm, "cvc5")
                 wit = parse_model(outm if rs == "sat" else model, ctx.inputs)
                 out["sat"].append({"function": name, "path_kind": o.kind, "msg": o.msg, "witness": wit, "small": rs == "sat", "solvers": verdicts,
-                                   "path_condition": o.state.pc[-6:]})
+                                   "path_condition": o.state.pc[-6:], "abstracted": over_approximated(o.state.events)})
             else:
                 out["inconclusive"].append(f"{name}: solver verdicts {verdicts} on a {o.kind} path")
     return out
@@ -558,9 +567,10 @@ class ExecS(ExecB):
             if re.search(rx, callee):
                 return handler(self, st, callee, args, dest_ty)
         name, args = self.resolve_call(callee, args)
-        if name is not None and depth < 5:
+        opaque_recv = bool(args) and isinstance(mirsmt.val_of(args[0]), Opaque) and re.search(r"Rows|Col|Cells|FlattenExact|View", getattr(mirsmt.val_of(args[0]), "tag", "") or "")
+        if name is not None and depth < 5 and not opaque_recv:
             return [(o.state, o.value, o.kind, o.msg) for o in self.run(name, st, args, depth + 1)]
-        # unknown callee: assumed to return (never a false alarm; a panic inside it is outside the claim)
+        # unknown callee (or a crate iterator / view method on a value the encoding keeps opaque): assumed to return (never a false alarm; a panic inside it is outside the claim)
         s_ret = st.fork()
         s_ret.events.append(("call", callee))
         self.unknown.add(callee)
@@ -581,7 +591,7 @@ def run_state_kernels(fns, wrapping, fields, want):
             continue
         res = {"kernel": "state_" + meth, "function": name, "semantics": "wrapping (overflow-checks=off)" if wrapping else "checked (overflow-checks=on)",
                "what": f"{meth}: the shape invariant holds at every exit ({'/'.join(sorted(want))})", "paths": 0, "queries": 0, "unsat": 0, "sat": [],
-               "inconclusive": [], "not_decided": None, "solver_s": 0.0, "exits": {"panic": 0, "caller": 0, "return": 0, "cut": 0}, "unknown_callees": []}
+               "inconclusive": [], "undecided": [], "not_decided": None, "solver_s": 0.0, "exits": {"panic": 0, "caller": 0, "return": 0, "cut": 0}, "unknown_callees": []}
         sym = mirsmt.Sym()
         ctx = kernels.Ctx(sym, fields)
         recv, d = kernels.owned(ctx)
@@ -617,7 +627,7 @@ def run_state_kernels(fns, wrapping, fields, want):
             tup = o.state.roots["self"].cell.v
             fc, fr, fd = (tup.fs[order.index(k)] for k in ("num_cols", "num_rows", "data"))
             if not (isinstance(fc, Int) and isinstance(fr, Int) and isinstance(fd, Slice)):
-                res["inconclusive"].append(f"{name}: a {cls} exit leaves a field the encoding cannot express ({type(fc).__name__}/{type(fr).__name__}/{type(fd).__name__})")
+                res["undecided"].append(f"{name}: a {cls} exit leaves a field the encoding cannot express ({type(fc).__name__}/{type(fr).__name__}/{type(fd).__name__})")
                 continue
             C, R, L = fc.t, fr.t, fd.len
             inv = f"(and (= (* {C} {R}) {L}) (= (= {C} 0) (= {R} 0)))"
@@ -646,7 +656,7 @@ def run_state_kernels(fns, wrapping, fields, want):
                 if meth in STATE_TWINS:
                     rep = (f"b_state_{STATE_TWINS[meth]}", [wit.get("cols", 0), wit.get("rows", 0), wit.get("arg_2", 0)])
                 res["sat"].append({"function": name, "path_kind": cls, "msg": o.msg or (o.state.events[-1][1] if o.state.events else ""), "witness": wit,
-                                   "abstracted": any(e[0] == "abstracted" for e in o.state.events),
+                                   "abstracted": over_approximated(o.state.events),
                                    "post_state": {"num_cols": C[:80], "num_rows": R[:80], "len": L[:80]}, "solvers": verdicts, "replay": rep})
             else:
                 res["inconclusive"].append(f"{name}: solver verdicts {verdicts} on a {cls} exit")
@@ -862,7 +872,7 @@ def run_flatten_kernels(fns, wrapping, fields):
             st.roots = {"self": recv}
             outcomes = ex.run(name, st, args)
         except Unsupported as e:
-            res["inconclusive"].append(f"{name}: outside the MIR subset: {e}")
+            res.setdefault("undecided", []).append(f"{name}: outside the MIR subset: {e}")
             out.append(res)
             continue
         jobs = []
@@ -927,7 +937,7 @@ def run_flatten_kernels(fns, wrapping, fields):
                     res["inconclusive"].append(f"{name}: a path needs more than {ExecF.unroll} loop iterations (feasible: {wit})")
                 else:
                     res["sat"].append({"function": name, "path_kind": o.kind if what == "post" else "panic/unwind on a valid state", "msg": o.msg, "witness": wit,
-                                       "solvers": verdicts, "replay": ("b_flatten_%d" % ["next", "next_back", "nth", "nth_back", "size_hint"].index(meth),
+                                       "solvers": verdicts, "abstracted": over_approximated(o.state.events), "replay": ("b_flatten_%d" % ["next", "next_back", "nth", "nth_back", "size_hint"].index(meth),
                                                                          [wit.get("C", 1), wit.get("N", 0), (wit.get("fhi", 0) - wit.get("flo", 0)) if wit.get("fsome") else 0,
                                                                           (wit.get("bhi", 0) - wit.get("blo", 0)) if wit.get("bsome") else 0, wit.get("n", 0)])})
             else:
